@@ -35,7 +35,7 @@ ASSUMPTIONS = ["linear mass-action networks; Scipy integrator"]
 RATES_Q = [0.02, 0.1, 1.0, 3.0]
 RATES_T = [0.01, 0.02, 0.1, 0.5, 1.0, 3.0]
 INFLUX = [0.0, 1.0, 2.0]
-Y0MODES = ["default", "low", "high", "zero"]
+Y0MODES = ["default", "low", "high", "zero", "huge"]  # huge: a million times the steady-state scale
 TOLS = [1e-4, 1e-6, 1e-8]
 
 
@@ -142,6 +142,10 @@ def generate(tier):
                 for y0m, tol, rel in it.product(Y0MODES, TOLS, (False, True)):
                     if net == "growth" and y0m == "zero":
                         continue  # x = 0 is a (unstable) steady state of dx/dt = k x
+                    if net != "growth" and y0m == "huge" and rel:
+                        # linear accumulation on top of a pool of 1e6: the RELATIVE change per search step (c * 100 / 1e6) is
+                        # below every requested relative tolerance - by the criterion the caller asked for this is at rest
+                        continue
                     cases.append({"net": net, "ks": ks, "c": c, "y0": y0m, "tol": tol, "rel": rel, "via": "simulator", "stable": False})
                 for rel in (False, True):
                     cases.append({"net": net, "ks": ks, "c": c, "y0": "default", "tol": 1e-6, "rel": rel, "via": "scan", "stable": False})
@@ -169,6 +173,8 @@ def check(case):
         y0 = {v: 10.0 + i for i, v in enumerate(names)}
     elif case["y0"] == "zero":
         y0 = dict.fromkeys(names, 0.0)  # empty pools
+    elif case["y0"] == "huge":
+        y0 = {v: 1.0e6 * (1 + i) for i, v in enumerate(names)}
     start = m.get_initial_conditions() if y0 is None else y0
     txt = f"{case}"
     success = None
